@@ -144,7 +144,23 @@ static void check_image(const uint8_t* img, size_t len, const Live& L, const std
   VF_CHECK(memcmp(img + 32, L.m.b.data(), L.m.cap / 8) == 0, K + "bit-array-differs-from-model", ctx);
 }
 
+// every operation available on a read-only view leaves the caller's bytes untouched
+static void readonly_view_is_passive(Live& L, Rng& r, const std::string& after, uint64_t domain, int kind) {
+  if (!L.mem) return;
+  std::vector<uint8_t> before(L.mem_ptr(), L.mem_ptr() + L.mem_bytes());
+  {
+    const bloom_filter w = bloom_filter::wrap(L.mem_ptr(), L.mem_bytes());
+    bloom_filter wc(w);
+    check_view(wc, L, r, "fresh-wrap-first", after, domain, kind);     // includes get_bits_used(), is_empty(), queries
+    (void)wc.serialize(); (void)wc.to_string(); (void)wc.get_serialized_size_bytes();
+    bloom_filter wc2(wc); (void)wc2.get_bits_used();
+  }
+  VF_CHECK(memcmp(before.data(), L.mem_ptr(), before.size()) == 0, "bloom|read-only-view|caller-memory-modified-by-read-only-operations", cfg(L) + " after " + after);
+  count("readonly_passive_checks");
+}
+
 static void observe(Live& L, Rng& r, const std::string& after, uint64_t domain, int kind) {
+  if (L.mem && r.chance(0.5)) { readonly_view_is_passive(L, r, after, domain, kind); count("fresh_wrap_before_live_readout"); }
   check_view(*L.f, L, r, "live", after, domain, kind);
   // copy
   if (r.chance(0.3)) { bloom_filter c(*L.f); check_view(c, L, r, "copy", after, domain, kind); count("view_copy"); }
